@@ -55,6 +55,19 @@ def main(argv=None):
     import warnings
 
     warnings.filterwarnings("error", module=r"(edgegraph|egverif)(\.|$)")
+    # ... and so is the logging configuration of the host application: with DEBUG enabled for the library's
+    # loggers, every `if LOG.isEnabledFor(DEBUG):` block runs and every record is actually formatted
+    import logging
+
+    class _Format(logging.Handler):
+        def emit(self, record):
+            record.getMessage()  # a formatting error propagates to the caller like any other error of the library
+
+    _lib = logging.getLogger("edgegraph")
+    _lib.setLevel(logging.DEBUG)
+    _lib.addHandler(_Format())
+    _lib.propagate = False
+    logging.raiseExceptions = True
     prop = args.prop.upper()
     mod = importlib.import_module(f"egverif.props.{prop.lower()}")
     ctx = common.Ctx(prop, args.tier, args.seed, LEVELS.get(prop, "exploration"))
